@@ -125,6 +125,14 @@ func TestChild(t *testing.T) {
 		shutdownSignalled.Store(true)
 	}()
 
+	go func() {
+		t0 := time.Now()
+		for {
+			time.Sleep(time.Millisecond)
+			realMS.Store(time.Since(t0).Milliseconds())
+		}
+	}()
+
 	debug.SetGCPercent(400)
 
 	synctest.Test(t, func(t *testing.T) {
@@ -361,6 +369,34 @@ func allStacks() string {
 
 func doBatch(s *simT, cmd *proto.Cmd, out *os.File) {
 	resps := make([]proto.Resp, len(cmd.Reqs))
+	if cmd.Mode == "seq" {
+		// one client issues the requests one after another; background work is
+		// drained after each request and at the end
+		tk := s.spawn("c0", "", func() {
+			for i := range cmd.Reqs {
+				resps[i].Client = cmd.Reqs[i].Client
+				resps[i].Invoke = s.seq.Load()
+				execReq(&cmd.Reqs[i], &resps[i])
+				resps[i].Return = s.seq.Add(1)
+				resps[i].Done = true
+			}
+		})
+		wedged := s.run(func() bool { return tk.done.Load() }, true)
+		res := s.collect()
+		res.OK = !wedged
+		res.Wedged = wedged
+		if wedged {
+			res.Stacks = allStacks()
+			for i := range resps {
+				if !resps[i].Done {
+					resps[i] = proto.Resp{Client: resps[i].Client}
+				}
+			}
+		}
+		res.Resps = resps
+		writeResult(out, res)
+		return
+	}
 	tasks := make([]*task, len(cmd.Reqs))
 	for i := range cmd.Reqs {
 		i := i
